@@ -1,7 +1,10 @@
 // C03 (queries): parse a query with the real query builder, print it, re-parse, compare.  Testing only (no Lean model).
 //   in : one query per line
-//   out: OK <root kind> <str> <equal|notequal|REPARSE-REJECT msg|STR-EXCEPTION msg> <second str>   |   REJECT <msg>
+//   out: OK <root kind> <str> <equal|notequal|REPARSE-REJECT msg|STR-EXCEPTION msg> <second str> <kind tree>   |   REJECT <msg>
+// The kind tree (format of harness/c02.cpp) is what the Lean query layer (Model/Query.lean, driver op QRY) recomputes.
 #include "common.hpp"
+#include <limits>
+#include <sstream>
 
 using namespace UTAP;
 using namespace UTAP::Constants;
@@ -35,6 +38,32 @@ public:
     bool addFunction(type_t, const std::string&, position_t) override { throw NotSupportedException("addFunction"); }
     void drop() { while (fragments.size() > 0) fragments.pop(); }
 };
+
+// kind tree in the model's format: constants with type tag, doubles as hex bits, DOT with the field *name*
+static std::string ktree(const expression_t& e)
+{
+    if (e.empty()) return "()";
+    std::ostringstream os;
+    auto k = e.get_kind();
+    os << "(" << vh::kindName(k);
+    if (k == IDENTIFIER) os << " " << e.get_symbol().get_name();
+    else if (k == CONSTANT) {
+        type_t t = e.get_type();
+        if (t.is(Constants::DOUBLE)) os << " double " << vh::hexDouble(e.get_double_value());
+        else if (t.is_string()) os << " string " << std::string(e.get_string_value());
+        else if (t.is(Constants::BOOL)) os << " bool " << e.get_value();
+        else os << " int " << e.get_value();
+    } else if (k == DOT) {
+        type_t t = e[0].get_type();
+        int idx = e.get_index();
+        if (idx == std::numeric_limits<int32_t>::max()) os << " location";
+        else if (t.is_record() || t.is_process()) os << " " << t.get_record_label(idx);
+        else os << " #" << idx;
+    }
+    for (size_t i = 0; i < e.get_size(); ++i) os << " " << ktree(e[i]);
+    os << ")";
+    return os.str();
+}
 
 static std::string oneline(std::string s)
 {
@@ -81,7 +110,7 @@ int main()
                 } catch (std::exception& ex) {
                     status = std::string("STR-EXCEPTION ") + ex.what();
                 }
-                out = std::string("OK\t") + vh::kindName(e.get_kind()) + "\t" + oneline(s1) + "\t" + oneline(status) + "\t" + oneline(s2);
+                out = std::string("OK\t") + vh::kindName(e.get_kind()) + "\t" + oneline(s1) + "\t" + oneline(status) + "\t" + oneline(s2) + "\t" + oneline(ktree(e));
             }
         } catch (std::exception& ex) {
             out = std::string("REJECT exception ") + ex.what();
